@@ -10,7 +10,7 @@ from typing import Dict, List, Optional, Set, Tuple
 
 from ..cfg import CFG
 from ..model import AnchorError, Program, dotted, last_attr, norm, parent, walk_no_nested
-from ..report import Check
+from ..report import Check, guard
 from .common import calls_in, guards_of, local_assignments, need_locals, stmt_of
 
 
@@ -503,10 +503,10 @@ def r11_7(prog: Program, chk: Check) -> None:
 
 def run(prog: Program, chk: Check) -> None:
     _guard_names(prog)
-    r11_1(prog, chk)
-    r11_2(prog, chk)
-    r11_3(prog, chk)
-    r11_4(prog, chk)
-    r11_5(prog, chk)
-    r11_6(prog, chk)
-    r11_7(prog, chk)
+    guard(chk, r11_1, prog, chk)
+    guard(chk, r11_2, prog, chk)
+    guard(chk, r11_3, prog, chk)
+    guard(chk, r11_4, prog, chk)
+    guard(chk, r11_5, prog, chk)
+    guard(chk, r11_6, prog, chk)
+    guard(chk, r11_7, prog, chk)
